@@ -35,6 +35,8 @@ def dispatch (cmd : String) (args : List Sexp) : Option String :=
   | "layout.check" => Driver.Layout.check args
   | "resolve.get" => Driver.Resolve.get args
   | "taint.names" => Driver.Resolve.taintNames args
+  | "taint.imports" => Driver.Resolve.taintImports args
+  | "taint.declared" => Driver.Resolve.taintDeclared args
   | "freeze.locals" => Driver.Freeze.locals args
   | "freeze.globals" => Driver.Freeze.globals args
   | "hoist.collect" => Driver.HoistCollect.collectCmd args
